@@ -53,7 +53,13 @@ def _call_with_timeout(func: Callable[[], T], timeout_s: float) -> T:
     executor = ThreadPoolExecutor(max_workers=1)
     future = executor.submit(func)
     try:
-        return future.result(timeout=timeout_s)
+        result = future.result(timeout=timeout_s)
+        failure = future.exception()
+        if failure is not None:
+            # Future.result() truth-tests the stored exception: a falsy exception object
+            # (e.g. one defining __len__) would otherwise be returned as a None result.
+            raise failure
+        return result
     except FutureTimeoutError as exc:
         if future.done() and not future.cancelled() and future.exception() is exc:
             # The operation itself raised TimeoutError (the same type as the futures
